@@ -58,30 +58,32 @@ EXP = {
     "past": (None, _date(T0 - 86400)),
     "fut": (None, _date(T0 + 10)),
     "epoch": (None, "Thu, 01 Jan 1970 00:00:00 GMT"),   # the usual deletion idiom
+    "mabad+past": ("abc", _date(T0 - 86400)),            # the malformed Max-Age is ignored, Expires applies
+    "mabad+fut": ("1x", _date(T0 + 10)),
 }
 DOM = {"-": None, "e": "example.com", ".e": ".example.com", "s": "sub.example.com", "o": "other.com", "com": "com",
        "e.": "example.com.", "E": "EXAMPLE.COM", "n": "notexample.com"}
-PATH = {"-": None, "/a": "/a", "/a/": "/a/", "a": "a", "/": "/"}
+PATH = {"-": None, "/a": "/a", "/a/": "/a/", "a": "a", "/": "/", "/a//": "/a//", "/a/b/": "/a/b/"}
 RPATH = {"/": "/", "/a/b": "/a/b", "/a": "/a"}
 
 # a set-op is the tuple (host, dom, path, rpath, secure, exp, name); base = first value of each dimension
 DIMS = [
     ("host", ["E", "S", "O", "N", "I"]),
     ("dom", ["-", "e", ".e", "s", "o", "com", "e.", "E", "n"]),
-    ("path", ["-", "/a", "/a/", "a", "/"]),
+    ("path", ["-", "/a", "/a/", "a", "/", "/a//", "/a/b/"]),
     ("rpath", ["/", "/a/b", "/a"]),
     ("secure", [0, 1]),
-    ("exp", ["-", "ma10", "ma0", "past", "fut", "ma-1", "mabad", "epoch"]),
+    ("exp", ["-", "ma10", "ma0", "past", "fut", "ma-1", "mabad", "epoch", "mabad+past", "mabad+fut"]),
     ("name", ["n", "m"]),
     ("val", ["u", "same"]),
 ]
 QUICK_DIMS = [
     ("host", ["E", "S", "O", "N", "I"]),
     ("dom", ["-", "e", ".e", "s", "com", "e."]),
-    ("path", ["-", "/a", "/a/"]),
+    ("path", ["-", "/a", "/a/", "/a//"]),
     ("rpath", ["/", "/a/b"]),
     ("secure", [0, 1]),
-    ("exp", ["-", "ma10", "ma0", "past", "epoch"]),
+    ("exp", ["-", "ma10", "ma0", "past", "epoch", "mabad+past"]),
     ("name", ["n", "m"]),
     ("val", ["u", "same"]),      # "same": a constant value, so that a re-issued cookie can equal the stored one
 ]
